@@ -64,6 +64,9 @@ CHECKS = {
     'C13': (FE, 'exhaustive crash-state enumeration of the raw write history of a real save (all prefixes, torn writes, flushed buffers) + real SIGKILL validation',
             'The real save runs over a logging raw-file layer; every prefix of the mkdir/open/write/close log, three torn variants of every write and the all-bytes-flushed variant at every Python-level write call are materialised (first save: empty dir; overwrite: on a copy of the complete old entry) and checked by the recovery oracle (old or new value acceptable after overwrite). The log is validated by replaying it to the real final directory and by real SIGKILLs of a forked saver at traced lines, whose leftovers must equal a materialised prefix.',
             'Process kills only (completed write() calls survive); LocalStorage; pickle and JSON cache formats.', 'E6', '5/C13'),
+    'C19': (MC, 'stateless exhaustive exploration of result-delivery and log-queue-delivery schedules of the real ProcessRunner over a virtual multiprocessing layer',
+            'Real fork and spawn ProcessRunner + ProcessExecutor + coordinator over virtual processes whose queue puts, exit-time flushes and exits are committed lazily under explorer control: every schedule of which child has progressed how far at every parent-side observation, for 2 tasks (independent and chained; thorough: 3 tasks) x every pair of print/flush/logger/stderr emit patterns x max_workers {1,2}. When run_tasks returns each emitted fragment must have been received exactly once by a handler on labtech.logger.',
+            'Trusted: the virtual layer models multiprocessing at the granularity of labtech\'s observations (validated against real fork/spawn runs by the real-backend checks); per-drain reduction of log-queue delivery order is exact for a count oracle.', 'E1+E3', '5/C19'),
 }
 
 PENDING = {
